@@ -331,7 +331,7 @@ pub fn run_c16(ctx: &mut Ctx) -> Vec<Violation> {
         ctx.sample("grid", 3, &grid[5]);
     }
     out.extend(v);
-    out.extend(run_prop(ctx, "random", t.pick(1_600, 32_000), 200, c16_random(), |ctx, p| {
+    out.extend(run_prop(ctx, "random", t.pick(8_000, 64_000), 200, c16_random(), |ctx, p| {
         ctx.sample("random", 2, p);
         check_probe(ctx, p)
     }));
@@ -854,7 +854,7 @@ pub fn run_c18(ctx: &mut Ctx) -> Vec<Violation> {
     let wc = [1u8, 2, 4, 8, 16][(ctx.shard % 5) as usize];
     let camp = proptest::collection::vec(round_strategy(wc), t.pick(2..=3, 4..=8)).prop_map(|rounds| Campaign { rounds });
     // run_prop shares `cases` over shards; we want a fixed number per shard
-    let per_shard = t.pick(2u64, 40u64);
+    let per_shard = t.pick(3u64, 40u64);
     out.extend(run_prop(ctx, &format!("campaign-w{}", wc), per_shard * ctx.nshards as u64, 6, camp, |ctx, c| {
         ctx.sample("campaign", 1, &c.rounds.iter().map(|r| (r.workers, r.clients, r.mix, r.reqs)).collect::<Vec<_>>());
         check_campaign(ctx, c)
@@ -880,6 +880,8 @@ pub enum Load {
     Closed(u8),
     /// k open-loop sender threads; kind 0 valid, 1 invalid, 2 mixed
     Flood(u8, u8),
+    /// k closed-loop clients for 300 ms, then the load stops and the server idles for `delay_ms` before the signal
+    ThenIdle(u8),
 }
 
 #[derive(Debug, Clone, Serialize, Deserialize, PartialEq, Eq, Hash)]
@@ -889,11 +891,14 @@ pub struct SignalPlan {
     pub term: bool,
     pub load: Load,
     pub delay_ms: u16,
+    /// status_interval as written (None = left at its default of 600 s; the statistics timer fires every tenth of it)
+    #[serde(default)]
+    pub status_interval: Option<u16>,
 }
 
 fn check_signal(ctx: &mut Ctx, p: &SignalPlan) -> Res {
     ctx.eval();
-    let cfg = SrvCfg { seed_hex: GOOD_SEED.into(), workers: Some(p.workers as u64), client_stats: p.stats, status_interval: Some(10), ..Default::default() };
+    let cfg = SrvCfg { seed_hex: GOOD_SEED.into(), workers: Some(p.workers as u64), client_stats: p.stats, status_interval: p.status_interval.map(|x| x as u32), ..Default::default() };
     let mut s = match ServerProc::start(&cfg) {
         Ok(s) => s,
         Err(e) => {
@@ -920,7 +925,7 @@ fn check_signal(ctx: &mut Ctx, p: &SignalPlan) -> Res {
     let mut handles = vec![];
     match &p.load {
         Load::Idle => {}
-        Load::Closed(k) => {
+        Load::Closed(k) | Load::ThenIdle(k) => {
             for c in 0..(*k).max(1) {
                 let (stop, last, bad, replies, pk) = (stop.clone(), last_reply_ns.clone(), bad_reply.clone(), replies.clone(), pk.clone());
                 handles.push(std::thread::spawn(move || {
@@ -990,6 +995,10 @@ fn check_signal(ctx: &mut Ctx, p: &SignalPlan) -> Res {
             }
         }
     }
+    if let Load::ThenIdle(_) = p.load {
+        std::thread::sleep(Duration::from_millis(300));
+        stop.store(true, Ordering::Relaxed);
+    }
     std::thread::sleep(Duration::from_millis(p.delay_ms as u64));
     // how much is queued at the server right now (measures whether a flood really keeps the queue non-empty)
     let rxq = (0..3).map(|_| udp_rx_queue_for_port(s.port)).max().unwrap_or(0);
@@ -1012,12 +1021,14 @@ fn check_signal(ctx: &mut Ctx, p: &SignalPlan) -> Res {
     let load_s = match &p.load {
         Load::Idle => "idle".to_string(),
         Load::Closed(k) => format!("closed-loop x{}", k),
+        Load::ThenIdle(k) => format!("closed-loop x{} for 300 ms, then idle", k),
         Load::Flood(k, kind) => format!("flood x{} ({})", k, ["valid", "invalid", "mixed"][(*kind % 3) as usize]),
     };
-    let tag = format!("workers={} stats={} {} load={} delay={}ms", p.workers, p.stats, sigs, load_s, p.delay_ms);
+    let tag = format!("workers={} stats={} status_interval={:?} {} load={} delay={}ms", p.workers, p.stats, p.status_interval, sigs, load_s, p.delay_ms);
     let load_class = match &p.load {
         Load::Idle => "idle",
         Load::Closed(_) => "closed",
+        Load::ThenIdle(_) => "then-idle",
         Load::Flood(..) => "flood",
     };
     match status {
@@ -1050,7 +1061,11 @@ fn check_signal(ctx: &mut Ctx, p: &SignalPlan) -> Res {
         ctx.class(&format!("c19:flood:queue-at-signal={}", if rxq == 0 { "empty" } else if rxq < 100_000 { "<100KB" } else { ">=100KB" }));
     }
     ctx.class(&format!("c19:{}:{}:workers={}:stats={}:{}", load_class, sigs, p.workers, p.stats, if reaction < Duration::from_millis(200) { "exit<200ms" } else if reaction < Duration::from_millis(1500) { "exit<1.5s" } else { "exit<5s" }));
-    if in_flight {
+    let long_idle = matches!(p.load, Load::Idle | Load::ThenIdle(_)) && p.delay_ms >= 2_000;
+    if long_idle {
+        ctx.class(&format!("c19:idle-for-{}s-before-signal", p.delay_ms / 1000));
+    }
+    if in_flight || long_idle {
         ctx.nontrivial(&(p.workers, p.stats, p.term, format!("{:?}", p.load), p.delay_ms / 10));
     }
     Ok(())
@@ -1064,16 +1079,24 @@ fn c19_grid() -> Vec<SignalPlan> {
         for term in [false, true] {
             for load in [Load::Idle, Load::Closed(4), Load::Flood(4, 0), Load::Flood(3, 1), Load::Closed(16), Load::Flood(6, 2)] {
                 i += 1;
-                out.push(SignalPlan { workers, stats: i % 5 == 0, term, load, delay_ms: delays[i % delays.len()] });
+                out.push(SignalPlan { workers, stats: i % 5 == 0, term, load, delay_ms: delays[i % delays.len()], status_interval: [None, Some(10), Some(1)][i % 3] });
             }
         }
     }
+    // signal after the server has been idle for a while (seconds since start-up / since the last request)
+    out.push(SignalPlan { workers: 1, stats: false, term: true, load: Load::Idle, delay_ms: 3_600, status_interval: None });
+    out.push(SignalPlan { workers: 4, stats: false, term: false, load: Load::ThenIdle(3), delay_ms: 4_200, status_interval: None });
+    out.push(SignalPlan { workers: 4, stats: true, term: true, load: Load::Idle, delay_ms: 6_500, status_interval: Some(600) });
     out
 }
 
 fn c19_random() -> impl Strategy<Value = SignalPlan> {
-    let load = prop_oneof![1 => Just(Load::Idle), 3 => (1u8..=24).prop_map(Load::Closed), 3 => (2u8..=8, 0u8..3).prop_map(|(k, kind)| Load::Flood(k, kind))];
-    (prop::sample::select(vec![1u8, 4, 16]), prop::bool::weighted(0.2), any::<bool>(), load, prop_oneof![2 => 0u16..=300, 1 => 90u16..=110, 1 => Just(0u16), 1 => 950u16..=1100]).prop_map(|(workers, stats, term, load, delay_ms)| SignalPlan { workers, stats, term, load, delay_ms })
+    let load = prop_oneof![1 => Just(Load::Idle), 3 => (1u8..=24).prop_map(Load::Closed), 3 => (2u8..=8, 0u8..3).prop_map(|(k, kind)| Load::Flood(k, kind)), 1 => (1u8..=8).prop_map(Load::ThenIdle)];
+    (prop::sample::select(vec![1u8, 4, 16]), prop::bool::weighted(0.2), any::<bool>(), load, prop_oneof![2 => 0u16..=300, 1 => 90u16..=110, 1 => Just(0u16), 1 => 950u16..=1100], 0u16..=12_000, prop::sample::select(vec![None, Some(600u16), Some(10), Some(1)])).prop_map(|(workers, stats, term, load, delay_ms, long, status_interval)| {
+        // idle shapes also sweep long idle periods (most of them short, some up to 12 s)
+        let delay_ms = if matches!(load, Load::Idle | Load::ThenIdle(_)) && long % 3 == 0 { long } else { delay_ms };
+        SignalPlan { workers, stats, term, load, delay_ms, status_interval }
+    })
 }
 
 pub fn run_c19(ctx: &mut Ctx) -> Vec<Violation> {
@@ -1192,7 +1215,7 @@ pub fn c10_replay(ctx: &mut Ctx, case: &Value) -> Res {
 pub struct LeakRun {
     pub seed: Hex,
     pub via_env: bool,
-    /// 0 valid config, 1 batch_size 300 (error path), 2 client_stats on without directory, 3 fault 77, 4 unknown key
+    /// index into secrets::CONFIG_VARIANTS (valid and invalid configurations whose error paths log)
     pub variant: u8,
     pub workers: u8,
 }
@@ -1200,14 +1223,16 @@ pub struct LeakRun {
 fn check_leak_run(ctx: &mut Ctx, r: &LeakRun) -> Res {
     ctx.eval();
     let needles = super::secrets::Needles::new(&r.seed.0);
-    let mut cfg = SrvCfg { seed_hex: hex(&r.seed.0), workers: Some(r.workers.max(1) as u64), via_env: r.via_env, ..Default::default() };
-    match r.variant % 5 {
-        1 => cfg.batch_size = Some(300),
-        2 => cfg.extra.push(("client_stats".into(), "on".into())),
-        3 => cfg.fault = Some(77),
-        4 => cfg.extra.push(("frobnicate".into(), "1".into())),
-        _ => {}
+    let (vname, extra, seed_cut) = super::secrets::CONFIG_VARIANTS[r.variant as usize % super::secrets::CONFIG_VARIANTS.len()];
+    let seed_hex = hex(&r.seed.0);
+    let mut cfg = SrvCfg { seed_hex: match seed_cut { Some(n) => seed_hex[..n].to_string(), None => seed_hex.clone() }, workers: Some(r.workers.max(1) as u64), via_env: r.via_env, ..Default::default() };
+    for (k, v) in extra {
+        match *k {
+            "num_workers" => cfg.workers = v.parse().ok(),
+            _ => cfg.extra.push((k.to_string(), v.to_string())),
+        }
     }
+    // interface/port overrides must replace the generated ones: proclab appends extras, the loaders take the last value
     let mut s = match ServerProc::start(&cfg) {
         Ok(s) => s,
         Err(e) => {
@@ -1215,7 +1240,7 @@ fn check_leak_run(ctx: &mut Ctx, r: &LeakRun) -> Res {
             return Ok(());
         }
     };
-    let valid = r.variant % 5 == 0;
+    let valid = vname.starts_with("valid");
     if valid {
         if let Err(e) = s.wait_ready(Duration::from_secs(10)) {
             ctx.inconclusive(format!("C20: server not ready: {}", truncate(&e, 200)));
@@ -1240,7 +1265,7 @@ fn check_leak_run(ctx: &mut Ctx, r: &LeakRun) -> Res {
     let out = s.final_output();
     if let Some(w) = needles.find(out.as_bytes()) {
         let line = out.lines().find(|l| needles.find(l.as_bytes()).is_some()).unwrap_or("");
-        return ctx.fail(format!("secret-in-server-output|variant{}", r.variant % 5), format!("stdout/stderr of the real server ({} source, variant {}) contains {}: {:?}", if r.via_env { "ENV" } else { "file" }, r.variant % 5, w, truncate(line, 300)));
+        return ctx.fail(format!("secret-in-server-output|{}", vname), format!("stdout/stderr of the real server ({} source, variant {}) contains {}: {:?}", if r.via_env { "ENV" } else { "file" }, vname, w, truncate(line, 300)));
     }
     if valid {
         // positive control: the Info log announces the public key
@@ -1251,8 +1276,8 @@ fn check_leak_run(ctx: &mut Ctx, r: &LeakRun) -> Res {
     } else if out.is_empty() {
         return Err(viol("positive-control-failed", "invalid configuration produced no output at all"));
     }
-    ctx.class(&format!("c20:real-binary:{}:variant{}", if r.via_env { "env" } else { "file" }, r.variant % 5));
-    ctx.nontrivial(&(&r.seed.0, r.via_env, r.variant % 5));
+    ctx.class(&format!("c20:real-binary:{}:{}", if r.via_env { "env" } else { "file" }, vname));
+    ctx.nontrivial(&(&r.seed.0, r.via_env, vname));
     Ok(())
 }
 
@@ -1263,8 +1288,8 @@ pub fn c20_process_part(ctx: &mut Ctx) -> Vec<Violation> {
         h.0[0] |= 0xa0;
         h
     });
-    let strat = (seed, any::<bool>(), 0u8..5, prop::sample::select(vec![1u8, 2])).prop_map(|(seed, via_env, variant, workers)| LeakRun { seed, via_env, variant, workers });
-    run_prop(ctx, "real-binary", t.pick(36, 720), 4, strat, |ctx, r| {
+    let strat = (seed, any::<bool>(), 0u8..14, prop::sample::select(vec![1u8, 2])).prop_map(|(seed, via_env, variant, workers)| LeakRun { seed, via_env, variant, workers });
+    run_prop(ctx, "real-binary", t.pick(108, 1_440), 4, strat, |ctx, r| {
         ctx.sample("real-binary", 2, r);
         check_leak_run(ctx, r)
     })
